@@ -97,13 +97,17 @@ def judge(rec, opts):
     for n in (0, 1, 2):
         cat = Catalog()
         try:
-            t.render(m="Hello", pl="Hellos", cx="vctx", n=n, yes=True, no=False, translations=cat)
+            text = t.render(m="Hello", pl="Hellos", cx="vctx", n=n, yes=True, no=False, translations=cat)
         except LiquidError as e:
             out.append((f"render-failed:{shape(rec)}", {"src": src, "n": n, "error": str(e)[:200]}))
             break
         wantc = calls[str(n)] if isinstance(calls, dict) else calls[n]
         if cat.calls != list(wantc):
             out.append((f"catalog-lookups:{shape(rec)}", {"src": src, "n": n, "want": wantc, "got": cat.calls}))
+            break
+        wanto = rec["outs"][str(n)] if isinstance(rec["outs"], dict) else rec["outs"][n]
+        if text != wanto:
+            out.append((f"translated-output:{shape(rec)}", {"src": src, "n": n, "want": wanto, "got": text}))
             break
     return out
 
